@@ -3,12 +3,17 @@ use serde_json::{json, Value};
 use std::panic::{catch_unwind, AssertUnwindSafe};
 
 pub mod c03;
+pub mod c05;
+pub mod c06;
+pub mod c09;
 pub mod c10;
 pub mod c12;
 pub mod c14;
 pub mod common;
 pub mod issue;
 pub mod c01;
+pub mod c02;
+pub mod present;
 
 /// Start-up assertions about the build the harness measures (DESIGN.md section 4).
 pub fn selfcheck() {
@@ -38,7 +43,11 @@ pub fn outcome_total<T>(f: impl FnOnce() -> T, show: impl FnOnce(T) -> Value) ->
 pub fn generate(id: &str, thorough: bool, seed: u64, em: &mut Emitter) {
     match id {
         "C01" => c01::generate(thorough, seed, em),
+        "C02" => c02::generate(thorough, seed, em),
         "C03" => c03::generate(thorough, seed, em),
+        "C05" => c05::generate(thorough, seed, em),
+        "C06" => c06::generate(thorough, seed, em),
+        "C09" => c09::generate(thorough, seed, em),
         "C10" => c10::generate(thorough, seed, em),
         "C12" => c12::generate(thorough, seed, em),
         "C14" => c14::generate(thorough, seed, em),
@@ -51,6 +60,7 @@ pub fn execute(kind: &str, input: &Value) -> Value {
         "split" => c10::exec_split(input),
         "verify" => common::exec_verify(input),
         "issue" => issue::exec_issue(input),
+        "present" => present::exec_present(input),
         _ => json!({"harness_error": format!("unknown kind {}", kind)}),
     }
 }
